@@ -146,6 +146,54 @@ def run(chk: Check) -> None:
                     f"{'; '.join((st0['notes'] + st1['notes'])[:4])}; {st0['stderr'][-300:]}",
                     {"files": scn["files"], "argv": scn["steps"][0]["argv"], "meta": m, "verdict": why, "after_first_run": {k: v for k, v in (st0.get("after") or {}).items() if k != "app.py"}},
                 )
+    # ---- manifests that are not UTF-8 text (a requirements file as PowerShell's `pip freeze >` writes it, a legacy
+    # code page in a comment): judged on bytes - untouched, or still the same document in ITS encoding with every
+    # line kept and the requirement added once
+    import base64
+
+    enc_cases = [
+        ("utf16-lf", "requirements.txt", "requests==2.31.0\nflask>=2.0\n".encode("utf-16"), "utf-16"),
+        ("utf16-crlf", "requirements.txt", "requests==2.31.0\r\nflask>=2.0\r\n".encode("utf-16"), "utf-16"),
+        ("latin1-comment", "requirements.txt", "# d\xe9pendances\nrequests==2.31.0\n".encode("latin-1"), "latin-1"),
+        ("utf8-bom", "requirements.txt", b"\xef\xbb\xbfrequests==2.31.0\nflask>=2.0\n", "utf-8-sig"),
+    ]
+    cm = CODEMODS[0]
+    enc_scn = [{"id": f"C14-enc-{name}", "files": {"app.py": cm["src"], rel: {"b64": base64.b64encode(data).decode()}},
+                "steps": [{"argv": ["{dir}", "--output", "{out}", "--codemod-include", cm["id"]], "keep_after": True}], "_enc": (name, rel, data, enc)} for name, rel, data, enc in enc_cases]
+    for scn, r in zip(enc_scn, runner.run_many(enc_scn)):
+        name, rel, data, enc = scn["_enc"]
+        st = r["steps"][0]
+        chk.count()
+        chk.nontrivial(("encoding", name))
+        problems = []
+        if st["exit"] != 0:
+            problems.append(f"exit {st['exit']}")
+        if rel in st["changed_files"]:
+            # what is on disk now?  (the runner keeps only hashes: read the diff of the report instead)
+            cs = [c for res_ in (st["report"] or {}).get("results", []) for c in res_["changeset"] if c["path"] == rel]
+            added = [ln[1:] for c in cs for ln in c["diff"].split("\n") if ln.startswith("+") and not ln.startswith("+++")]
+            removed = [ln[1:] for c in cs for ln in c["diff"].split("\n") if ln.startswith("-") and not ln.startswith("---")]
+            old_lines = data.decode(enc).splitlines()
+            if any(r_.strip() and r_.strip() in [o.strip() for o in old_lines] and r_.strip() not in [a.strip() for a in added] for r_ in removed):
+                problems.append("a declared requirement or comment was removed")
+            if "\ufffd" in "".join(added) or "\x00" in "".join(added + removed):
+                problems.append("the manifest was rewritten with replacement characters / NUL bytes (decoded in the wrong encoding)")
+            if not cs:
+                problems.append("manifest changed without a changeset")
+            # the bytes now on disk: still the same kind of document, every old line kept
+            now = (st["after"].get(rel) or "").encode("utf-8", "surrogateescape")
+            try:
+                new_lines = [ln.strip() for ln in now.decode(enc).splitlines()]
+                lost = [o for o in old_lines if o.strip() and o.strip() not in new_lines]
+                if lost:
+                    problems.append(f"lines lost from the manifest read in its own encoding ({enc}): {lost[:2]}")
+                if sum(1 for ln in new_lines if ln.lower().startswith(cm["pkg"].lower())) != 1:
+                    problems.append(f"the requirement is not there exactly once when the manifest is read in its own encoding ({enc})")
+            except UnicodeError:
+                problems.append(f"the manifest no longer decodes in its own encoding ({enc})")
+        if problems:
+            chk.violation(f"C14|encoding|{name}|{'+'.join(p_.split(' ')[0] for p_ in problems)}", f"{cm['id']} with a {name} requirements.txt: {problems}",
+                          {"argv": scn["steps"][0]["argv"], "manifest_bytes": data.hex()})
     chk.sample({"abstract_project": scenarios[-1]["_meta"], "files": {k: v[:120] for k, v in scenarios[-1]["files"].items()}})
     chk.assumptions += [
         "which manifest is updated is not prescribed: any single manifest that can take the requirement and does not declare it",
